@@ -192,11 +192,22 @@ Section WithRe.
                      end
     | SetBuffer v :: r => (None, set_buffer v, length evs) :: history r (set_buffer v) evs
     end.
+
+  (** Expecter.__init__ (expect.py): which search window a call uses.  [given = None]: the caller passed nothing (-1), the
+      searchwindowsize attribute of the spawn object decides; [given = Some w]: the caller's own value, where w = None means
+      "search everything" whatever the attribute says. *)
+  Definition resolve_window (given : option (option nat)) (attr : option nat) : option nat :=
+    match given with Some w => w | None => attr end.
+  Definition resolve_op (attr : option nat) (o : op * bool) : op :=
+    match o with
+    | (Call c t0, true) => Call {| ckind := ckind c; pats := pats c; W := resolve_window None attr |} t0
+    | (o', _) => o'
+    end.
 End WithRe.
 
 Arguments PStr {rx}. Arguments PRe {rx}. Arguments PEof {rx}. Arguments PTimeout {rx}.
 Arguments ckind {rx}. Arguments pats {rx}. Arguments W {rx}. Arguments Build_cfg {rx}.
-Arguments Call {rx}. Arguments SetBuffer {rx}.
+Arguments Call {rx}. Arguments SetBuffer {rx}. Arguments resolve_op {rx}.
 Arguments eof_index {rx}. Arguments timeout_index {rx}. Arguments lookback {rx}. Arguments longest {rx}.
 Arguments maintain {rx}. Arguments is_eof {rx}. Arguments is_timeout {rx}. Arguments last_index {rx}.
 Arguments eof {rx}. Arguments timeout {rx}. Arguments errored {rx}.
